@@ -20,7 +20,69 @@ class C16(Prop):
     quick_cases = 2000
     thorough_cases = 300000
 
+    def gen_dense(self, rng):
+        from fractions import Fraction as Fr
+        from rtverif.props.c04 import sig_text
+        c = lang.dense_cfg(rng, unbounded_future=False)
+        c.max_depth = min(c.max_depth, 3)
+        f = lang.gen_formula(rng, c)
+        names = lang.variables(f) or [c.vars[0]]
+        w1 = lang.gen_signals(rng, names)
+        w2 = {}
+        for k in names:
+            t = w1[k][-1][0]
+            ext = []
+            for _ in range(rng.randint(1, 6)):
+                t = t + Fr(rng.choice([1, 2, 3, 4, 8]), 4)
+                ext.append((t, rng.choice([-64.0, 64.0]) if rng.random() < 0.5 else rng.choice(lang.SMALL)))
+            w2[k] = list(w1[k]) + ext
+        return {'dense': True, 'formula': f, 'w1': sig_text(w1), 'w2': sig_text(w2)}
+
+    def judge_dense(self, case):
+        from fractions import Fraction as Fr
+        from rtverif import ref_dense
+        from rtverif.props.c04 import sig_from_json
+        v = Verdict()
+        f = case['formula']
+        w1, w2 = sig_from_json(case['w1']), sig_from_json(case['w2'])
+        names = sorted(w1)
+        h = lang.horizon(f)
+        text = lang.to_text(f)
+        try:
+            e1, e2 = ref_dense.evaluate(f, w1), ref_dense.evaluate(f, w2)
+        except ref.Undefined:
+            v.skip = 'reference undefined (domain error)'
+            return v
+        start = max(s[0][0] for s in w1.values())
+        end1 = min(s[-1][0] for s in w1.values())
+        hi = end1 - Fr(h)
+        v.info['dense'] = 1
+        if hi <= start:
+            v.skip = 'empty settled region'
+            return v
+        rel = rel_for(f)
+        try:
+            r1 = drive.ct_offline(text, names, w1)
+            r2 = drive.ct_offline(text, names, w2)
+        except Exception as e:
+            v.bad('raises:' + type(e).__name__, '%s: dense evaluate raised %s: %s' % (text, type(e).__name__, e))
+            return v
+        v.nontrivial = h > 0 or lang.has_stateful(f)
+        for t in ref_dense.probe_times(e1, list(r1) + list(r2), start, hi):
+            if t >= hi:
+                continue          # strict: t + h < end of w1
+            if e1.at(t) != e1.at(t) or e2.at(t) != e2.at(t):
+                continue
+            a, b = ref_dense.out_value(r1, t), ref_dense.out_value(r2, t)
+            if a is None or b is None or not ref.same(a, b, rel):
+                v.bad('unstable', '%s (h=%s) dense: value at t=%s is %r on w1=%s but %r on its extension %s' % (
+                    text, h, float(t), a, case['w1'], b, case['w2']))
+                break
+        return v
+
     def gen(self, rng, ctx):
+        if rng.random() < 0.3:
+            return self.gen_dense(rng)
         nv = rng.choice([1, 2, 2, 3])
         c = lang.GenCfg(vars=list(lang.VAR_POOL[:nv]), max_depth=rng.choice([1, 2, 3, 3, 4]),
                         unbounded_future=False, unless=True, max_bound=rng.choice([2, 4, 6]))
@@ -38,6 +100,8 @@ class C16(Prop):
         return {'formula': f, 'data': data, 'n1': n1}
 
     def judge(self, case):
+        if case.get('dense'):
+            return self.judge_dense(case)
         v = Verdict()
         f, data, n1 = case['formula'], case['data'], case['n1']
         names = sorted(data)
